@@ -234,5 +234,19 @@ PROPS.update({
     },
 })
 
+PROPS.update({
+    "C18": {
+        "level": "partial",
+        "text": "Kernel-checked: (metrics) extra_ref_neutral - while a handler runs the envelope's own reference keeps strongCount >= 1, so the guard's extra reference clone (alive from before the handler call to the end of the arm) changes no closed/alive/upgrade test in any reachable state; count_exact (C20) shows the guard only records. (deadlock-detection) detection_silent_without_cycle - in the protocol model an ask that closes no cycle takes the same step whether or not detection is compiled in, apart from the bookkeeping map (C14.waits_otherwise / C15.sound: a panic needs a real chain). (tracing, test-utils) every feature-gated site of src/*.rs is read from the source on every run and classified (feature_sites_shape): tracing sites are spans, instrument attributes, log macros and a clock read used only by a log line; test-utils sites are the dead-letter counter; no unclassified site. Real side: the same seeded scripts run on harness builds with default features and with all four features (thorough: all 15 non-empty subsets); every build is compared step by step with the one model AND the builds' raw traces are compared byte for byte; multi-actor programs (asks between actors, timeouts, panics, kills, small mailboxes, concurrent asks) are compared between builds whenever they contain no ask cycle (by construction, or - general programs - when the detecting build saw no justified deadlock; an unjustified deadlock report is a violation). NOT proved: that the tracing crate's span/instrument machinery and task_local scoping are behaviourally transparent (assumed; exercised by the builds).",
+        "note": PROOF_NOTE,
+        "technique": "Lean 4 theorems (reference-count neutrality, detection silent without a cycle) + extracted inventory of feature-gated sites + differential correspondence across feature builds",
+        "monitors": ["C01", "C02", "C03", "C04", "C05", "C13"],
+        "extra": ["featcorr"],
+        "corr": corr(["mixed", "shutdown"], nq=60, nt=500),
+        "extract_items": ["feature_sites", "metrics_placement", "ask_protocol", "lifecycle"],
+        "assumptions": COMMON_ASSUME + ["tracing::Span / #[instrument] / task_local scope wrappers only wrap the future they are given"],
+    },
+})
+
 NOT_APPLICABLE = {p: "check not built yet in this session (work in progress; see DESIGN.md §12 build order)" for p in
                   ["C%02d" % i for i in range(1, 21)]}
